@@ -2,18 +2,30 @@
 
    EndToEnd.v relates the index-based read of a writer-produced file to the abstract iterator of
    Iter.v for the option lists without window and topics, and keeps only the permutation.  Here
-     1. the chunk descriptions the abstract theorems need are DERIVED from the writer facts (C05):
-        every chunk's [start, end] bounds the log times of its messages (chunks_wf), start <= end
-        (ranges_ok), the chunk offsets are pairwise different, and - unless message indexes are
-        skipped - the message index offsets of a chunk index name every channel with a message in
-        the chunk;
-     2. the index-based read is unfolded for EVERY option list the dispatch sends to the indexed
-        iterator (windows, topics, the three orders): the summary prunes the chunk indexes by time
-        and by topic, the pruned list is loaded in ci_sort order, and the run refines the abstract
-        run over the kept chunks; pruning drops no selected message;
-     3. hence: the result is the selected (window /\ topic) part of the forced scan - equal to it in
-        file order, its stable sort by log time in the two time orders -, and the number of chunk
-        slots never exceeds max 1 (max_overlap of the file's chunk time ranges) (1 in file order). *)
+     1. (section 2) the chunk descriptions the abstract theorems need are DERIVED from the writer
+        facts (C05): every chunk's [start, end] bounds the log times of its messages (chunks_wf),
+        start <= end (ranges_ok), the chunk offsets are pairwise different, and - unless message
+        indexes are skipped - the message index offsets of a chunk index name every channel with a
+        message in the chunk.  WriterFactsC.chunk_ok describes a chunk by SOME record list; it is
+        tied to the records the reader decodes by the injectivity of framing (frames_inj) and the
+        wire-format bounds of e2e_bounds (log times and channel ids are compared modulo 2^64 / 2^16);
+     2. (section 5) the index-based read is unfolded for EVERY option list the dispatch sends to the
+        indexed iterator (windows, topics, the three orders; no metadata callback): the summary prunes
+        the chunk indexes by time and by topic (sm_fields_gen), the pruned list is loaded in ci_sort
+        order, and the run refines the abstract run over the kept chunks (indexed_read_A, through
+        EndToEnd.indexed_read_x_backward / forward); pruning drops no selected message
+        (dropped_empty, kept_selection);
+     3. (sections 5, 6) hence read_spec: the result is the selected (window /\ topic) part of the
+        forced scan - equal to it in file order, sorted by log time with in-chunk ties in file order
+        (reverse file order) in the two time orders -, and the number of chunk slots never exceeds
+        max 1 (max_overlap of the file's chunk time ranges) (1 in file order); with the channel and
+        schema records in the summary the read ends with io.EOF (indexed_read_A_eof);
+     4. (section 8) the sequential scan with the same options returns the same selection
+        (ascan_consistent_gen, scan_opts_filter), so in file order the result is identical with and
+        without the index;
+     5. (section 7) a run whose chunks overlap in time, with all hypotheses discharged and the reads
+        computed by vm_compute.
+   Nothing was found false of the model. *)
 From Coq Require Import List NArith ZArith Bool Lia ZifyN ZifyNat ZifyBool Permutation Sorted PeanoNat.
 From Coq.Strings Require Import Byte.
 From RecordUpdate Require Import RecordSet.
@@ -1338,8 +1350,8 @@ Definition ov_cs : list wcall :=
    CMessage (ov_msg 1 2 10); CMessage (ov_msg 2 3 40); CMessage (ov_msg 1 4 40);
    CMessage (ov_msg 2 5 20); CMessage (ov_msg 1 6 60); CMessage (ov_msg 2 7 20);
    CMessage (ov_msg 1 8 5)].
-Definition ov_w : wresult := W ov_o [x6c] ce_id None (CHeader ex_hd :: ov_cs ++ [CClose]).
-Definition ov_f : fsrc := mem_file (file_of ov_w).
+Notation ov_w := (W ov_o [x6c] ce_id None (CHeader ex_hd :: ov_cs ++ [CClose])) (only parsing).
+Notation ov_f := (mem_file (file_of ov_w)) (only parsing).
 (* (mode, (channel id, sequence number, log time) of every message, slot statistics, final error) *)
 Definition ov_view (r : outcome readres) :=
   match r with
@@ -1440,7 +1452,7 @@ Example ov_read_ok :
     [[OUsingIndex false]; []; [OInOrder LogTimeOrder]; [OInOrder ReverseLogTimeOrder];
      [OAfterNanos 10; OBeforeNanos 50]; [OTopics [[x75]]; OBeforeNanos 50; OAfterNanos 10];
      [OInOrder LogTimeOrder; OTopics [[x75]]; OBeforeNanos 50; OAfterNanos 10]].
-Proof. repeat constructor; vm_compute; reflexivity. Qed.
+Proof. repeat (apply Forall_cons; [split; vm_compute; reflexivity|]). apply Forall_nil. Qed.
 
 (* the theorems on the run *)
 Example ov_C03_applies : forall d ri rs,
@@ -1449,7 +1461,8 @@ Example ov_C03_applies : forall d ri rs,
   rr_mode ri = Some MIndexed /\ Permutation (rr_msgs ri) (rr_msgs rs) /\
   StronglySorted (fun a b => led d (log_of a) (log_of b)) (rr_msgs ri).
 Proof.
-  intros d ri rs H1 H2 H3. destruct (C03_e2e_thm _ _ _ _ _ _ _ ov_hyps d ri rs H1 H2 H3) as (A & B & C & _). auto.
+  intros d ri rs H1 H2 H3.
+  destruct (C03_e2e_thm ds_id ce_dall ov_o [x6c] ce_id ex_hd ov_cs ov_hyps d ri rs H1 H2 H3) as (A & B & C & _). auto.
 Qed.
 
 Example ov_C04_applies : forall os r0 ri rs,
@@ -1460,7 +1473,7 @@ Example ov_C04_applies : forall os r0 ri rs,
                         ((ro_start_n r0 <=? log_of t) && ((log_of t <? ro_end_n r0) || ro_unbounded r0))) (rr_msgs rs).
 Proof.
   intros os r0 ri rs Hw Ha H1 H2 Ho. destruct ov_enabled as (E1 & E2 & _).
-  destruct (C04_e2e_nanos_thm _ _ _ _ _ _ _ ov_hyps E1 (or_intror E2) os r0 ri rs Hw Ha H1 H2) as (_ & _ & _ & HF & _).
+  destruct (C04_e2e_nanos_thm ds_id ce_dall ov_o [x6c] ce_id ex_hd ov_cs ov_hyps E1 (or_intror E2) os r0 ri rs Hw Ha H1 H2) as (_ & _ & _ & HF & _).
   exact (HF Ho).
 Qed.
 
@@ -1470,6 +1483,405 @@ Example ov_C20_applies : forall os r0 ri,
   (fst (rr_slots ri) <= 2)%nat /\ (snd (rr_slots ri) <= 2)%nat.
 Proof.
   intros os r0 ri Ha Hu Hcb Hri. destruct ov_enabled as (E1 & E2 & _).
-  destruct (C20_e2e_enabled_thm _ _ _ _ _ _ _ ov_hyps E1 (or_intror E2) os r0 ri Ha Hu Hcb Hri) as (_ & _ & _ & S1 & S2).
-  destruct ov_layout as (_ & K & _). fold ov_w in S1, S2. rewrite K in S1, S2. exact (conj S1 S2).
+  destruct (C20_e2e_enabled_thm ds_id ce_dall ov_o [x6c] ce_id ex_hd ov_cs ov_hyps E1 (or_intror E2) os r0 ri Ha Hu Hcb Hri) as (_ & _ & _ & S1 & S2).
+  destruct ov_layout as (_ & K & _). rewrite K in S1, S2. exact (conj S1 S2).
 Qed.
+
+(* ---------- the statements as the property files give them ---------- *)
+Theorem C03_e2e_logtime_thm :
+  forall ds dall o lib compress hd cs, e2e_hyps ds dall o lib compress hd cs ->
+  let w := W o lib compress None (CHeader hd :: cs ++ [CClose]) in
+  let f := mem_file (file_of w) in
+  let cis := if o_skip_ci (effective_opts o) then [] else w_chunk_indexes (r_final w) in
+  forall ri rs,
+    read_messages ds dall f [OInOrder LogTimeOrder] = Ok ri -> read_messages ds dall f [OUsingIndex false] = Ok rs ->
+    rr_end ri = EEOF ->
+    rr_mode ri = Some MIndexed /\
+    Permutation (rr_msgs ri) (rr_msgs rs) /\
+    StronglySorted (fun a b : triple => m_log (snd a) <= m_log (snd b)) (rr_msgs ri) /\
+    exists segs : list (list triple),
+      concat segs = rr_msgs rs /\
+      Forall2 (fun seg ci => Forall (fun t : triple => ci_start ci <= m_log (snd t) <= ci_end ci) seg) segs cis /\
+      forall seg t1 t2, In seg segs -> before t1 t2 seg -> m_log (snd t1) = m_log (snd t2) ->
+        before t1 t2 (rr_msgs ri).
+Proof. intros ds dall o lib compress hd cs H w f cis ri rs. exact (C03_e2e_thm ds dall o lib compress hd cs H true ri rs). Qed.
+
+Theorem C03_e2e_reverse_thm :
+  forall ds dall o lib compress hd cs, e2e_hyps ds dall o lib compress hd cs ->
+  let w := W o lib compress None (CHeader hd :: cs ++ [CClose]) in
+  let f := mem_file (file_of w) in
+  let cis := if o_skip_ci (effective_opts o) then [] else w_chunk_indexes (r_final w) in
+  forall ri rs,
+    read_messages ds dall f [OInOrder ReverseLogTimeOrder] = Ok ri -> read_messages ds dall f [OUsingIndex false] = Ok rs ->
+    rr_end ri = EEOF ->
+    rr_mode ri = Some MIndexed /\
+    Permutation (rr_msgs ri) (rr_msgs rs) /\
+    StronglySorted (fun a b : triple => m_log (snd b) <= m_log (snd a)) (rr_msgs ri) /\
+    exists segs : list (list triple),
+      concat segs = rr_msgs rs /\
+      Forall2 (fun seg ci => Forall (fun t : triple => ci_start ci <= m_log (snd t) <= ci_end ci) seg) segs cis /\
+      forall seg t1 t2, In seg segs -> before t1 t2 seg -> m_log (snd t1) = m_log (snd t2) ->
+        before t2 t1 (rr_msgs ri).
+Proof. intros ds dall o lib compress hd cs H w f cis ri rs. exact (C03_e2e_thm ds dall o lib compress hd cs H false ri rs). Qed.
+
+(* ====================================================================================== *)
+(** * 8. the sequential scan with a window and topics *)
+(* EndToEnd.ascan_consistent covers the scan without window and topics; the scan with options returns
+   the selected part of it *)
+
+Definition csel (ro : ropts) (L : list arec) (m : message) : bool :=
+  match chan_of L (m_chan m) with
+  | Some c => topic_selected (ro_topics ro) (c_topic c) && in_window ro (m_log m)
+  | None => false
+  end.
+
+Lemma ascan_inv_gen ro L :
+  (forall c c', In (AChannel c) L -> In (AChannel c') L -> c_id c = c_id c' -> c = c') ->
+  (forall s s', In (ASchema s) L -> In (ASchema s') L -> s_id s = s_id s' -> s = s') ->
+  (forall s, In (ASchema s) L -> s_id s <> 0) ->
+  forall L2 sch chs chids schids,
+  incl L2 L -> scoped chids schids L2 ->
+  (forall id, In id chids -> exists c, In (AChannel c) L /\ c_id c = id /\
+      tab_get id chs = (if topic_selected (ro_topics ro) (c_topic c) then Some (channel_norm c) else None) /\
+      (c_schema c = 0 \/ In (c_schema c) schids)) ->
+  (forall id, ~ In id chids -> tab_get id chs = None) ->
+  (forall id, In id schids -> exists s, In (ASchema s) L /\ s_id s = id /\ tab_get id sch = Some s) ->
+  tab_get 0 sch = None ->
+  exists ts, ascan ro sch chs L2 = Some ts /\
+             Forall2 (fun t m => triple_of L m = Some t) ts (filter (csel ro L) (amsgs L2)).
+Proof.
+  intros HcC HcS Hs0.
+  induction L2 as [|a L2 IH]; intros sch chs chids schids Hincl Hsc HC HN HS H0.
+  - exists []. split; [reflexivity|constructor].
+  - assert (Hin : In a L) by (apply Hincl; left; reflexivity).
+    assert (Hincl' : incl L2 L) by (intros x Hx; apply Hincl; right; exact Hx).
+    destruct a as [s|c|m]; cbn [scoped] in Hsc; cbn [ascan].
+    + rewrite amsgs_schema.
+      apply IH with (chids := chids) (schids := s_id s :: schids); try assumption.
+      * intros id Hid. destruct (HC id Hid) as (c & Hc & Hcid & Hget & Hsch).
+        exists c. repeat split; try assumption.
+        destruct Hsch as [Hz|Hi]; [left; exact Hz|right; right; exact Hi].
+      * intros id Hid.
+        destruct (N.eq_dec (s_id s) id) as [E|E].
+        { exists s. repeat split; try assumption. rewrite <- E. apply tab_get_set_same. }
+        destruct Hid as [Hid|Hid]; [contradiction|].
+        destruct (HS id Hid) as (s' & Hs' & Hsid & Hget).
+        exists s'. repeat split; try assumption.
+        rewrite tab_get_set_other by exact E. exact Hget.
+      * rewrite tab_get_set_other by (apply Hs0; exact Hin). exact H0.
+    + rewrite amsgs_channel. destruct Hsc as [Hsch Hsc].
+      assert (Hold : forall id, In id chids -> id <> c_id c -> forall chs',
+                (forall id', id' <> c_id c -> tab_get id' chs' = tab_get id' chs) ->
+                exists c0, In (AChannel c0) L /\ c_id c0 = id /\
+                  tab_get id chs' = (if topic_selected (ro_topics ro) (c_topic c0) then Some (channel_norm c0) else None) /\
+                  (c_schema c0 = 0 \/ In (c_schema c0) schids)).
+      { intros id Hid Hne chs' Hsame. destruct (HC id Hid) as (c' & Hc' & Hcid & Hget & Hsch').
+        exists c'. repeat split; try assumption. rewrite Hsame by exact Hne. exact Hget. }
+      destruct (topic_selected (ro_topics ro) (c_topic c)) eqn:Et.
+      * apply IH with (chids := c_id c :: chids) (schids := schids); try assumption.
+        -- intros id Hid. destruct (N.eq_dec id (c_id c)) as [E|E].
+           ++ exists c. repeat split; try assumption; [symmetry; exact E|]. rewrite Et, E. apply tab_get_set_same.
+           ++ destruct Hid as [Hid|Hid]; [congruence|].
+              apply (Hold id Hid E). intros id' Hne. apply tab_get_set_other. congruence.
+        -- intros id Hid. rewrite tab_get_set_other by (intro E; apply Hid; left; exact E).
+           apply HN. intro Hi. apply Hid. right. exact Hi.
+      * apply IH with (chids := c_id c :: chids) (schids := schids); try assumption.
+        -- intros id Hid. destruct (N.eq_dec id (c_id c)) as [E|E].
+           ++ exists c. repeat split; try assumption; [symmetry; exact E|]. rewrite Et, E.
+              destruct (in_dec N.eq_dec (c_id c) chids) as [Hi|Hi].
+              ** destruct (HC _ Hi) as (c' & Hc' & Hcid & Hget & _). rewrite (HcC c' c Hc' Hin Hcid) in Hget.
+                 rewrite Et in Hget. exact Hget.
+              ** apply HN, Hi.
+           ++ destruct Hid as [Hid|Hid]; [congruence|]. apply (Hold id Hid E). reflexivity.
+        -- intros id Hid. apply HN. intro Hi. apply Hid. right. exact Hi.
+    + rewrite amsgs_message. destruct Hsc as [Hch Hsc].
+      destruct (HC _ Hch) as (c & Hc & Hcid & Hget & Hsch).
+      destruct (IH sch chs chids schids Hincl' Hsc HC HN HS H0) as (ts & Hts & HF).
+      assert (Hco : chan_of L (m_chan m) = Some c) by (rewrite <- Hcid; apply chan_of_in; assumption).
+      cbn [filter]. unfold csel at 1. rewrite Hco, Hget.
+      destruct (topic_selected (ro_topics ro) (c_topic c)); cbn [andb]; [|exists ts; split; assumption].
+      destruct (in_window ro (m_log m)); [|exists ts; split; assumption].
+      change (c_schema (channel_norm c)) with (c_schema c). rewrite Hts. cbn [option_map].
+      destruct (N.eq_dec (c_schema c) 0) as [Ez|Ez].
+      * rewrite Ez, H0. change (0 =? 0) with true. cbv iota.
+        eexists. split; [reflexivity|]. constructor; [|exact HF].
+        unfold triple_of. rewrite Hco, Ez, (schema_of_0 L Hs0). reflexivity.
+      * destruct Hsch as [Hz|Hi]; [contradiction|].
+        destruct (HS _ Hi) as (s & Hs & Hsid & Hgs). rewrite Hgs.
+        eexists. split; [reflexivity|]. constructor; [|exact HF].
+        unfold triple_of. rewrite Hco, <- Hsid, (schema_of_in L s HcS Hs). reflexivity.
+Qed.
+
+Theorem ascan_consistent_gen ro L :
+  scoped [] [] L ->
+  (forall c c', In (AChannel c) L -> In (AChannel c') L -> c_id c = c_id c' -> c = c') ->
+  (forall s s', In (ASchema s) L -> In (ASchema s') L -> s_id s = s_id s' -> s = s') ->
+  (forall s, In (ASchema s) L -> s_id s <> 0) ->
+  exists ts, ascan ro [] [] L = Some ts /\
+             Forall2 (fun t m => triple_of L m = Some t) ts (filter (csel ro L) (amsgs L)).
+Proof.
+  intros Hsc HcC HcS Hs0.
+  apply (ascan_inv_gen ro L HcC HcS Hs0 L [] [] [] []).
+  - apply incl_refl.
+  - exact Hsc.
+  - intros id [].
+  - reflexivity.
+  - intros id [].
+  - reflexivity.
+Qed.
+
+Section ScanOpts.
+Variable ds : doracle.
+Variable dall : dalloracle.
+Variable o : wopts.
+Variable lib : bytes.
+Variable compress : nat -> bytes -> bytes.
+Variable hd : header.
+Variable cs : list wcall.
+
+Let eo := effective_opts o.
+Let w := W o lib compress None (CHeader hd :: cs ++ [CClose]).
+Let s := r_final w.
+Let F := file_of w.
+
+Hypothesis Hwf : Forall call_wf cs.
+Hypothesis Hnh : no_header cs.
+Hypothesis Hok : all_ok w.
+Hypothesis Hcodec : codec_ok ds dall (o_comp o) compress.
+Hypothesis Hcomp : comp_ok o compress.
+Hypothesis Hsmall : Forall call_small cs.
+Hypothesis Hcons : ids_consistent cs.
+Hypothesis Hsize : blen F < two63.
+Hypothesis Hbounds : e2e_bounds w.
+Hypothesis Hfuel : e2e_fuel ds w.
+
+Variable D : list sitem.
+Variable de : bytes.
+Variables ss sos crc : N.
+Hypothesis HS : Shape o lib compress hd cs D de ss sos crc.
+
+Let sch' := if o_skip_rsh eo then [] else map snd (w_schemas s).
+Let chs' := if o_skip_rch eo then [] else map snd (w_channels s).
+Let L_all := auto_recs cs ++ map ASchema sch' ++ map AChannel chs'.
+Let R (t : triple) (m : message) : Prop := triple_of L_all m = Some t.
+
+Lemma L_all_scan_gen ro :
+  exists ts, ascan ro [] [] L_all = Some ts /\ Forall2 R ts (filter (csel ro L_all) (messages_of cs)).
+Proof.
+  unfold R. rewrite <- (L_all_msgs o lib compress hd cs). fold eo w s sch' chs' L_all. apply ascan_consistent_gen.
+  - exact (L_all_scoped o lib compress hd cs Hwf Hnh Hok).
+  - intros c c' H1 H2. apply (proj1 Hcons); apply (L_all_channel o lib compress hd cs Hwf Hnh Hok); assumption.
+  - intros sc sc' H1 H2. apply (proj2 Hcons); apply (L_all_schema o lib compress hd cs Hwf Hnh Hok); assumption.
+  - intros sc H. destruct (EndToEnd.run_tables o lib compress hd cs Hwf Hnh Hok) as (_ & _ & _ & _ & HSC).
+    exact (call_scoped_schema_nz cs [] [] sc HSC (L_all_schema o lib compress hd cs Hwf Hnh Hok sc H)).
+Qed.
+
+(* the sequential read of the written file, any options *)
+Let hbX : bytes := enc_header {| h_profile := h_profile hd; h_library := header_library eo lib hd |}.
+
+Lemma scan_eq os r : o_skip_magic eo = false ->
+  messages_dispatch ds (mem_file F) os = Ok (MScan, r) ->
+  exists ts mds, Forall2 R ts (filter (csel r L_all) (messages_of cs)) /\
+    read_messages ds dall (mem_file F) os =
+    bind (parse_header hbX)
+      (fun _ => Ok {| rr_mode := Some MScan; rr_msgs := ts; rr_mds := mds; rr_end := EEOF; rr_slots := (O, O) |}).
+Proof.
+  intros Hm Hd.
+  pose proof (E_auto ds dall o lib compress hd cs Hwf Hok Hcodec Hcomp Hsmall Hbounds D de ss sos crc HS) as EA.
+  match type of EA with filter _ (file_events _ _ ?rc) = _ => set (recs := rc) in * end.
+  pose proof (tr_data_file o lib compress hd cs D de ss sos crc HS Hm) as ET. fold eo hbX recs in ET.
+  assert (EF : F = render (data_file hbX recs)).
+  { unfold F, w. rewrite (run_file_is_trace o lib compress hd cs Hwf Hok), ET. reflexivity. }
+  rewrite EF in Hd. rewrite EF.
+  rewrite (C02_read_scan_thm ds dall hbX recs os r
+             (hb_small o lib compress hd cs Hbounds D de ss sos crc HS)
+             (recs_wf ds dall o lib compress hd cs Hwf Hok Hcodec Hcomp Hsmall Hsize Hbounds D de ss sos crc HS)
+             Hd (scan_fuel ds o lib compress hd cs Hwf Hok Hsize Hfuel D de ss sos crc HS Hm)).
+  destruct (L_all_scan_gen r) as (ts & Hts & HF2).
+  rewrite (scan_spec_auto r _ [] [] EEOF L_all ts EA
+             (L_all_wf o lib compress hd cs Hwf Hnh Hok)
+             (E_benign ds dall o lib compress hd cs Hwf Hok Hcodec Hcomp Hsmall Hbounds D de ss sos crc HS r) Hts).
+  eexists ts, _. split; [exact HF2|]. destruct (parse_header hbX); reflexivity.
+Qed.
+
+(* a read that returns at all has parsed the header *)
+Lemma header_parses os ri : read_messages ds dall (mem_file F) os = Ok ri -> exists h, parse_header hbX = Ok h.
+Proof.
+  intro Hr. pose proof (magic_cases ds dall o lib compress hd cs Hwf Hok Hsize D de ss sos crc HS _ _ Hr) as Hm.
+  pose proof (tr_data_file o lib compress hd cs D de ss sos crc HS Hm) as ET. fold eo hbX in ET.
+  match type of ET with _ = data_file _ ?rc => set (recs := rc) in * end.
+  assert (EF : F = render (IMagic :: IRec OpHeader hbX :: recs ++ [IMagic])).
+  { unfold F, w. rewrite (run_file_is_trace o lib compress hd cs Hwf Hok), ET. reflexivity. }
+  rewrite EF in Hr. unfold read_messages in Hr.
+  destruct (new_reader_ok ds hbX (recs ++ [IMagic]) true (hb_small o lib compress hd cs Hbounds D de ss sos crc HS))
+    as (l0 & _ & E0).
+  rewrite E0 in Hr. destruct (parse_header hbX) as [h| | | |]; cbn [bind] in Hr; try discriminate.
+  exists h. reflexivity.
+Qed.
+
+Lemma scan_read_gen os r rs : o_skip_magic eo = false ->
+  messages_dispatch ds (mem_file F) os = Ok (MScan, r) ->
+  read_messages ds dall (mem_file F) os = Ok rs ->
+  rr_mode rs = Some MScan /\ rr_end rs = EEOF /\
+  Forall2 R (rr_msgs rs) (filter (csel r L_all) (messages_of cs)).
+Proof.
+  intros Hm Hd Hr. destruct (scan_eq os r Hm Hd) as (ts & mds & HF & E). rewrite E in Hr.
+  destruct (parse_header hbX) as [h| | | |]; cbn [bind] in Hr; try discriminate.
+  injection Hr as <-. cbn [rr_mode rr_end rr_msgs]. auto.
+Qed.
+
+(* the forced scan returns whenever some read of the file returns *)
+Lemma forced_scan_exists os ri : read_messages ds dall (mem_file F) os = Ok ri ->
+  exists rs, read_messages ds dall (mem_file F) [OUsingIndex false] = Ok rs.
+Proof.
+  intro Hr. pose proof (magic_cases ds dall o lib compress hd cs Hwf Hok Hsize D de ss sos crc HS _ _ Hr) as Hm.
+  destruct (header_parses os ri Hr) as (h & Hh).
+  assert (Hd : messages_dispatch ds (mem_file F) ([] ++ [OUsingIndex false])
+               = Ok (MScan, finalize (default_ropts <| ro_use_index := false |>))).
+  { apply C02_dispatch_no_index_thm; reflexivity. }
+  destruct (scan_eq _ _ Hm Hd) as (ts & mds & _ & E). cbn [app] in E. rewrite E, Hh. cbn [bind]. eexists. reflexivity.
+Qed.
+
+(* a triple of the scan is selected exactly when its message is *)
+Lemma R_csel ro t m : R t m -> tsel ro t = csel ro L_all m.
+Proof.
+  unfold R, triple_of, tsel, csel. destruct (chan_of L_all (m_chan m)) as [c|]; [|discriminate].
+  intro Ht.
+  assert (E : c_topic (snd (fst t)) = c_topic c /\ snd t = m).
+  { destruct (schema_of _ (c_schema c)); [injection Ht as <-; auto|].
+    destruct (c_schema c =? 0); [injection Ht as <-; auto|discriminate]. }
+  destruct E as [-> ->]. reflexivity.
+Qed.
+
+(* the scan with options returns the selected part of the forced scan *)
+Lemma scan_opts_filter os r0 rs' rs :
+  apply_opts os default_ropts = Ok r0 -> ro_order r0 = FileOrder ->
+  read_messages ds dall (mem_file F) (os ++ [OUsingIndex false]) = Ok rs' ->
+  read_messages ds dall (mem_file F) [OUsingIndex false] = Ok rs ->
+  rr_mode rs' = Some MScan /\ rr_end rs' = EEOF /\ rr_msgs rs' = filter (tsel (finalize r0)) (rr_msgs rs).
+Proof.
+  intros Ha Ho Hr' Hr.
+  pose proof (magic_cases ds dall o lib compress hd cs Hwf Hok Hsize D de ss sos crc HS _ _ Hr) as Hm.
+  pose proof (C02_dispatch_no_index_thm ds (mem_file F) os r0 Ha Ho) as Hd'.
+  destruct (scan_read_gen _ _ rs' Hm Hd' Hr') as (S1 & S2 & S3).
+  destruct (noindex_read ds dall o lib compress hd cs Hwf Hnh Hok Hcodec Hcomp Hsmall Hcons Hsize Hbounds Hfuel
+              D de ss sos crc HS false rs Hm Hr) as (_ & _ & T3 & _).
+  fold eo w s sch' chs' L_all in T3. change (Forall2 R (rr_msgs rs) (messages_of cs)) in T3.
+  split; [exact S1|]. split; [exact S2|].
+  assert (Ec : forall m, csel (finalize (r0 <| ro_use_index := false |>)) L_all m = csel (finalize r0) L_all m).
+  { intro m. unfold csel, in_window, finalize. destruct r0 as [st en tp ui od mc sn enn ub]. cbn.
+    destruct ((sn =? 0) && (0 <? st)%Z); cbn; destruct ((_ || _) && (0 <? en)%Z); reflexivity. }
+  rewrite (filter_ext _ _ Ec) in S3.
+  assert (HF : Forall2 R (filter (tsel (finalize r0)) (rr_msgs rs)) (filter (csel (finalize r0) L_all) (messages_of cs))).
+  { apply Forall2_filter_fun; [exact T3|]. intros t m. apply R_csel. }
+  exact (Forall2_fun_eq (triple_of L_all) _ _ _ S3 HF).
+Qed.
+
+
+End ScanOpts.
+
+(* the scan with options, against the forced scan *)
+Theorem C04_e2e_scan_thm :
+  forall ds dall o lib compress hd cs, e2e_hyps ds dall o lib compress hd cs ->
+  let f := mem_file (file_of (W o lib compress None (CHeader hd :: cs ++ [CClose]))) in
+  forall os r0 rs' rs,
+    apply_opts os default_ropts = Ok r0 -> ro_order r0 = FileOrder ->
+    read_messages ds dall f (os ++ [OUsingIndex false]) = Ok rs' -> read_messages ds dall f [OUsingIndex false] = Ok rs ->
+    rr_mode rs' = Some MScan /\ rr_end rs' = EEOF /\ rr_msgs rs' = filter (tsel (finalize r0)) (rr_msgs rs).
+Proof.
+  intros ds dall o lib compress hd cs (Hcodec & Hcomp & Hwf & Hsmall & Hnh & Hcons & Hok & Hsize & Hbounds & Hfuel)
+    f os r0 rs' rs Ha Ho Hr' Hr.
+  destruct (run_shape o lib compress hd cs Hwf Hnh Hok) as (D & de & ss & sos & crc & HS).
+  exact (scan_opts_filter ds dall o lib compress hd cs Hwf Hnh Hok Hcodec Hcomp Hsmall Hcons Hsize Hbounds Hfuel
+           D de ss sos crc HS os r0 rs' rs Ha Ho Hr' Hr).
+Qed.
+
+(* file order: the same messages with and without the index *)
+Theorem C04_e2e_same_thm :
+  forall ds dall o lib compress hd cs, e2e_hyps ds dall o lib compress hd cs ->
+  index_enabled (effective_opts o) -> o_skip_stats o = false \/ (exists c, In (CChannel c) cs) ->
+  let f := mem_file (file_of (W o lib compress None (CHeader hd :: cs ++ [CClose]))) in
+  forall os r0 ri rs',
+    apply_opts os default_ropts = Ok r0 -> ro_use_index r0 = true -> ro_md_cb r0 = false -> ro_order r0 = FileOrder ->
+    read_messages ds dall f os = Ok ri -> read_messages ds dall f (os ++ [OUsingIndex false]) = Ok rs' ->
+    rr_mode ri = Some MIndexed /\ rr_mode rs' = Some MScan /\ rr_end ri = EEOF /\ rr_end rs' = EEOF /\
+    rr_msgs ri = rr_msgs rs'.
+Proof.
+  intros ds dall o lib compress hd cs Hh Hen Hx f os r0 ri rs' Ha Hu Hcb Ho Hri Hr'. pose proof Hh as Hh0.
+  destruct Hh as (Hcodec & Hcomp & Hwf & Hsmall & Hnh & Hcons & Hok & Hsize & Hbounds & Hfuel).
+  destruct (run_shape o lib compress hd cs Hwf Hnh Hok) as (D & de & ss & sos & crc & HS).
+  destruct (forced_scan_exists ds dall o lib compress hd cs Hwf Hnh Hok Hcodec Hcomp Hsmall Hcons Hsize Hbounds Hfuel
+              D de ss sos crc HS os ri Hri) as (rs & Hrs).
+  destruct (C04_e2e_thm ds dall o lib compress hd cs Hh0 Hen Hx os r0 ri rs Ha Hu Hcb Hri Hrs) as (A1 & A2 & _ & _ & _ & A6 & _).
+  destruct (C04_e2e_scan_thm ds dall o lib compress hd cs Hh0 os r0 rs' rs Ha Ho Hr' Hrs) as (B1 & B2 & B3).
+  split; [exact A1|]. split; [exact B1|]. split; [exact A2|]. split; [exact B2|].
+  rewrite (A6 Ho), B3. reflexivity.
+Qed.
+
+(* the bound in terms of the chunk indexes Reader.Info returns *)
+Lemma max_overlap_info cis :
+  max_overlap (map ci_range (ci_sort FileOrder (map chunkindex_norm cis))) = max_overlap (map ci_range cis).
+Proof.
+  rewrite ci_sort_gsort.
+  rewrite (max_overlap_perm _ _ (Permutation_map ci_range (gsort_perm (ci_before FileOrder) (map chunkindex_norm cis)))).
+  apply max_overlap_ranges. rewrite !map_map. reflexivity.
+Qed.
+
+Theorem C20_e2e_info_thm :
+  forall ds dall o lib compress hd cs, e2e_hyps ds dall o lib compress hd cs ->
+  let f := mem_file (file_of (W o lib compress None (CHeader hd :: cs ++ [CClose]))) in
+  forall sm os r ri,
+    info ds f = Ok sm ->
+    messages_dispatch ds f os = Ok (MIndexed, r) -> ro_md_cb r = false ->
+    read_messages ds dall f os = Ok ri -> rr_end ri = EEOF ->
+    (ro_order r = FileOrder -> (fst (rr_slots ri) <= 1)%nat /\ (snd (rr_slots ri) <= 1)%nat) /\
+    (fst (rr_slots ri) <= Nat.max 1 (max_overlap (map ci_range (sm_cis sm))))%nat /\
+    (snd (rr_slots ri) <= Nat.max 1 (max_overlap (map ci_range (sm_cis sm))))%nat.
+Proof.
+  intros ds dall o lib compress hd cs Hh f sm os r ri Hi Hd Hcb Hri He.
+  destruct (C02_e2e_info_thm ds dall o lib compress hd cs Hh) as (sm' & Hi' & _ & _ & Hc & _).
+  fold f in Hi'. rewrite Hi in Hi'. injection Hi' as <-.
+  rewrite Hc, max_overlap_info.
+  destruct (C20_e2e_thm ds dall o lib compress hd cs Hh os r ri Hd Hcb Hri He) as [S1 S2].
+  destruct (eff_skips2 o) as (K & _). rewrite K in S2.
+  split; [exact S1|].
+  destruct (ro_order r) eqn:Eo; [|apply S2; discriminate|apply S2; discriminate].
+  destruct (S1 eq_refl) as [A B]. lia.
+Qed.
+
+(* examples: the scan theorems and the Info form of the bound on the overlapping run *)
+Example ov_same_applies : forall os r0 ri rs',
+  apply_opts os default_ropts = Ok r0 -> ro_use_index r0 = true -> ro_md_cb r0 = false -> ro_order r0 = FileOrder ->
+  read_messages ds_id ce_dall ov_f os = Ok ri -> read_messages ds_id ce_dall ov_f (os ++ [OUsingIndex false]) = Ok rs' ->
+  rr_msgs ri = rr_msgs rs'.
+Proof.
+  intros os r0 ri rs' Ha Hu Hcb Ho H1 H2. destruct ov_enabled as (E1 & E2 & _).
+  destruct (C04_e2e_same_thm ds_id ce_dall ov_o [x6c] ce_id ex_hd ov_cs ov_hyps E1 (or_intror E2) os r0 ri rs' Ha Hu Hcb Ho H1 H2)
+    as (_ & _ & _ & _ & E). exact E.
+Qed.
+
+Example ov_info_overlap :
+  option_map (fun sm => max_overlap (map ci_range (sm_cis sm))) (match info ds_id ov_f with Ok sm => Some sm | _ => None end) = Some 2%nat.
+Proof. vm_compute. reflexivity. Qed.
+
+(* the chunk-size-1 run of C02_full (four chunks of one message): the time-ordered reads *)
+Example ex1_time_reads :
+  let f1 := mem_file (file_of (W y_o [x6c] ce_id None (CHeader ex_hd :: ex_cs ++ [CClose]))) in
+  ex_view (read_messages ds_id ce_dall f1 [OUsingIndex false]) = Some (Some MScan, [(1, 10); (2, 7); (1, 12); (2, 3)], 0%nat, EEOF) /\
+  ex_view (read_messages ds_id ce_dall f1 [OInOrder LogTimeOrder]) = Some (Some MIndexed, [(2, 3); (2, 7); (1, 10); (1, 12)], 0%nat, EEOF) /\
+  ex_view (read_messages ds_id ce_dall f1 [OInOrder ReverseLogTimeOrder]) = Some (Some MIndexed, [(1, 12); (1, 10); (2, 7); (2, 3)], 0%nat, EEOF) /\
+  ex_view (read_messages ds_id ce_dall f1 [OAfterNanos 7; OBeforeNanos 12]) = Some (Some MIndexed, [(1, 10); (2, 7)], 0%nat, EEOF) /\
+  ex_view (read_messages ds_id ce_dall f1 [OTopics [[x74]]]) = Some (Some MIndexed, [(1, 10); (1, 12)], 0%nat, EEOF) /\
+  option_map (fun r => rr_slots r) (match read_messages ds_id ce_dall f1 [OInOrder LogTimeOrder] with Ok r => Some r | _ => None end)
+    = Some (1, 0)%nat.
+Proof. vm_compute. repeat split. Qed.
+
+(* the dispatch hypothesis of e2e_indexed_read_thm / C20_e2e_thm on the overlapping run *)
+Definition ov_disp (os : list ropt) : option (mode * bool * rorder) :=
+  match messages_dispatch ds_id ov_f os with Ok (m, r) => Some (m, ro_md_cb r, ro_order r) | _ => None end.
+Example ov_dispatch :
+  ov_disp [] = Some (MIndexed, false, FileOrder) /\
+  ov_disp [OAfterNanos 10; OBeforeNanos 50] = Some (MIndexed, false, FileOrder) /\
+  ov_disp [OInOrder LogTimeOrder; OTopics [[x75]]; OBeforeNanos 50; OAfterNanos 10] = Some (MIndexed, false, LogTimeOrder) /\
+  ov_disp [OAfter 10; OBefore 50; OInOrder ReverseLogTimeOrder] = Some (MIndexed, false, ReverseLogTimeOrder).
+Proof. vm_compute. repeat split. Qed.
